@@ -973,3 +973,9 @@ M('densesym-product-accepts-non-square', 'C12', 'square-matrix-guard',
   [('MatOp/DenseSymMatProd.h', '        if (mat.rows() != mat.cols())\n            throw std::invalid_argument("DenseSymMatProd: matrix must be square");\n', '')], 'reverts fix F23 (wrapper)')
 M('gen-base-accepts-rectangular-operator', 'C12', 'square-matrix-guard',
   [('GenEigsBase.h', '        if (op.rows() != op.cols())\n            throw std::invalid_argument("the matrix operation must represent a square matrix");\n\n', '')], 'reverts fix F23 (solver base)')
+
+# ----------------------------------------------------------------------------- F24
+M('davidson-small-problem-sizes-ignore-nev', 'C15', 'constructed-search-space-sizes-admissible',
+  [('JDSymEigsBase.h', "m_initial_search_space_size = (std::max)(m_number_eigenvalues, m_matrix_operator.cols() / 3);", "m_initial_search_space_size = m_matrix_operator.cols() / 3;")], 'reverts the initial-size part of fix F24')
+M('davidson-maximal-size-below-initial', 'C15', 'constructed-search-space-sizes-admissible',
+  [('JDSymEigsBase.h', "        if (m_max_search_space_size < m_initial_search_space_size)\n        {\n            m_max_search_space_size = m_initial_search_space_size;\n        }\n", "")], 'reverts the maximal-size part of fix F24')
